@@ -42,6 +42,11 @@ def apply_op(op: list, arm=None) -> list:
         return _run(pool.CFG[name])
     if kind == "obs":
         return _run(pool.OBS[name], arm)
+    if kind == "warm":
+        # the other observations about the same type, made and not compared (history only)
+        for o in pool.warm_set(name):
+            _run(pool.OBS[o])
+        return ["ok", None]
     raise ValueError(op)
 
 
@@ -65,6 +70,8 @@ def child_reference(hist: dict) -> Dict[str, list]:
     for i, op in enumerate(hist["ops"]):
         if op[0] == "cfg":
             out[str(i)] = apply_op(op)
+        elif op[0] == "warm":
+            out[str(i)] = ["ok", None]  # a cold start has no earlier calls
         else:
             out[str(i)] = proc.fork_call(_observe, op)
     return out
@@ -105,7 +112,7 @@ def systematic_blocks(p_mod: int = 1, p_rot: int = 0) -> Tuple[List[dict], Dict[
     for c in cfgs:
         for o in obs:
             if pool.related(c, o):
-                hs.append({"ops": [["obs", o], ["cfg", c], ["obs", o]], "fault": None, "block": "A"})
+                hs.append({"ops": [["obs", o], ["warm", o], ["cfg", c], ["obs", o]], "fault": None, "block": "A"})
     counts["A"] = len(hs)
     # B: observe, change, change again inside the same area (replace / remove), observe
     nb = 0
@@ -118,8 +125,8 @@ def systematic_blocks(p_mod: int = 1, p_rot: int = 0) -> Tuple[List[dict], Dict[
                 rel = [o for o in obs if pool.related(c1, o) or pool.related(c2, o)]
                 rel.sort(key=lambda o: (not (pool.same_target(c1, o) or pool.same_target(c2, o)),
                                         hashlib.blake2b((c1 + c2 + o).encode(), digest_size=4).digest()))
-                for o in rel[:4]:
-                    hs.append({"ops": [["obs", o], ["cfg", c1], ["obs", o], ["cfg", c2], ["obs", o]],
+                for o in rel[: (4 if p_mod == 1 else 3)]:
+                    hs.append({"ops": [["obs", o], ["cfg", c1], ["obs", o], ["warm", o], ["cfg", c2], ["obs", o]],
                                "fault": None, "block": "B"})
                     nb += 1
     counts["B"] = nb
@@ -133,7 +140,7 @@ def systematic_blocks(p_mod: int = 1, p_rot: int = 0) -> Tuple[List[dict], Dict[
             rel = [o for o in obs if pool.related(c, o)]
             rel.sort(key=lambda o: hashlib.blake2b((kn + c + o).encode(), digest_size=4).digest())
             for o in rel[:2]:
-                hs.append({"ops": [["cfg", kn], ["obs", o], ["cfg", c], ["obs", o]], "fault": None, "block": "K"})
+                hs.append({"ops": [["cfg", kn], ["obs", o], ["warm", o], ["cfg", c], ["obs", o]], "fault": None, "block": "K"})
                 nk += 1
     counts["K"] = nk
     # C: crash points of compilation: fail the k-th callback of an observation made under a
@@ -170,14 +177,14 @@ def systematic_blocks(p_mod: int = 1, p_rot: int = 0) -> Tuple[List[dict], Dict[
                 close = bool(set(pool.TAGS[c1]) & set(pool.TAGS[c2])) and (
                     pool.same_target(c1, o) or pool.same_target(c2, o))
                 if close:
-                    hs.append({"ops": [["cfg", c1], ["obs", o], ["cfg", c2], ["obs", o]], "fault": None, "block": "Q"})
+                    hs.append({"ops": [["cfg", c1], ["obs", o], ["warm", o], ["cfg", c2], ["obs", o]], "fault": None, "block": "Q"})
                     nq += 1
                     continue
                 if p_mod > 1:
                     hv = int.from_bytes(hashlib.blake2b((c1 + "|" + c2 + "|" + o).encode(), digest_size=4).digest(), "big")
                     if hv % p_mod != p_rot % p_mod:
                         continue
-                hs.append({"ops": [["cfg", c1], ["obs", o], ["cfg", c2], ["obs", o]], "fault": None, "block": "P"})
+                hs.append({"ops": [["cfg", c1], ["obs", o], ["warm", o], ["cfg", c2], ["obs", o]], "fault": None, "block": "P"})
                 np_ += 1
     counts["P"] = np_
     counts["Q"] = nq
@@ -193,7 +200,7 @@ _SYS: Dict[tuple, tuple] = {}
 
 # quick tier runs 1/P_MOD_QUICK of the cross-area block P (which sixteenth rotates with VERIF_SEED);
 # the thorough tier runs all of it
-P_MOD_QUICK = 24
+P_MOD_QUICK = 48
 # random histories interleaved 1:1 with block P (the rest of the longer one follows)
 RANDOM_PER_TIER = {"quick": 1500, "thorough": 150000}
 
@@ -226,7 +233,9 @@ def random_history(seed: int, tier: str) -> dict:
     p_obs = rng.choice([0.35, 0.5, 0.65])
     ops = []
     for _ in range(length):
-        if rng.random() < p_obs:
+        if rng.random() < 0.08:
+            ops.append(["warm", rng.choice(focus)])
+        elif rng.random() < p_obs:
             if rng.random() < 0.85:
                 ops.append(["obs", rng.choice(focus)])
             else:
@@ -328,7 +337,7 @@ def child_final_only(hist: dict) -> list:
     for op in hist["ops"]:
         if op[0] == "cfg":
             apply_op(op)
-        else:
+        elif op[0] == "obs":
             last = op
     return apply_op(last) if last is not None else ["none"]
 
